@@ -332,9 +332,50 @@ def run_shard(shard):
             if not notes:
                 continue
             check_pair(acc, pt, recipe, variant, notes, nonce, v, mode, fp, ctx, "random")
+    for _ in range(6):
+        name_sequence_probe(acc, pt, rng)
     if shard["shard"] == 0:
         known_probe(acc, pt, rng)
     return acc.result()
+
+
+def name_sequence_probe(acc, pt, rng):
+    """Programs compiled one after the other that share subroutine objects: the streams must not depend on how the subroutines
+    are named (all alike, alike after label sanitising, or all different)."""
+    from .. import rcase
+    from ..common import PT_ERRORS, h, reset_globals
+    v = rng.choice([4, 6, 8, 10])
+    plan = [rng.sample(range(4), rng.choice([1, 2, 3])) for _ in range(rng.choice([2, 3]))]
+    schemes = {"distinct": ["h0", "h1", "h2", "h3"], "same": ["helper"] * 4, "sanitise_alike": ["he lper", "helper", "_helper", "he-lper"]}
+    streams = {}
+    for sname, names in schemes.items():
+        reset_globals()
+
+        def mk(j):
+            def body(x):
+                return x * pt.Int(3) + pt.Int(j + 1)
+            return pt.Subroutine(pt.TealType.uint64, name=names[j])(body)
+        pool = [mk(j) for j in range(4)]
+        outs = []
+        try:
+            for chosen in plan:
+                e = pt.Int(1)
+                for j in chosen:
+                    e = e + pool[j](pt.Int(2 + j))
+                outs.append(normalise(pt.compileTeal(e, pt.Mode.Application, version=v)))
+        except Exception as ex:
+            outs = "EXC %s: %s" % (type(ex).__name__, str(ex)[:120])
+        streams[sname] = outs
+    acc.evaluations += 1
+    acc.counters["kind_name_sequence"] += 1
+    case = {"probe": "name_sequence", "plan": plan, "version": v}
+    if streams["same"] != streams["distinct"] or streams["sanitise_alike"] != streams["distinct"]:
+        bad = "same" if streams["same"] != streams["distinct"] else "sanitise_alike"
+        acc.violation("stream_differs", case, "a sequence of programs sharing subroutine objects compiles differently when the subroutines are named %r instead of %r: %s"
+                      % (schemes[bad], schemes["distinct"], str(streams[bad])[:200] if isinstance(streams[bad], str) else "instruction streams differ"))
+    else:
+        acc.counters["streams_equal"] += 1
+        acc.nontrivial.add(h(case))
 
 
 def known_probe(acc, pt, rng):
